@@ -455,10 +455,10 @@ theorem open_connection_reply_truthy_iff_failed (o : ConnectOutcome) :
     truthy (openConnectionReply o) = (o != .ok) := by
   cases o with
   | ok => rfl
-  | cancelled => decide
+  | cancelled => rfl
   | oserror msg =>
     cases msg with
-    | nil => decide
+    | nil => rfl
     | cons b t => rfl
 
 /-- the boundary this rests on: to the layers an EMPTY error string is the same input as `None` (success) — which is
